@@ -210,15 +210,15 @@ def MaskFits : Node → BitVec 8 → Prop
   | .sub n, f => f ≤ n.consts.rng ∧ (f &&& ~~~n.consts.rng) = 0#8
   | _, _ => True
 
-private theorem or_inRange (k : Sub) (v f : BitVec 8) (hv : InRange k v) (hf : MaskFits (.sub k) f) :
+theorem or_inRange (k : Sub) (v f : BitVec 8) (hv : InRange k v) (hf : MaskFits (.sub k) f) :
     InRange k (v ||| f) := by
   unfold MaskFits at hf
   cases k <;> simp only [InRange, Sub.consts, Gen.labConsts, Gen.corConsts, Gen.dorConsts, Gen.phrConsts] at * <;> bv_decide
 
-private theorem and_inRange (k : Sub) (v f : BitVec 8) (hv : InRange k v) : InRange k (v &&& ~~~f) := by
+theorem and_inRange (k : Sub) (v f : BitVec 8) (hv : InRange k v) : InRange k (v &&& ~~~f) := by
   cases k <;> simp only [InRange, Sub.consts, Gen.labConsts, Gen.corConsts, Gen.dorConsts, Gen.phrConsts] at * <;> bv_decide
 
-private theorem zero_inRange (k : Sub) : InRange k 0#8 := by
+theorem zero_inRange (k : Sub) : InRange k 0#8 := by
   cases k <;> simp only [InRange, Sub.consts, Gen.labConsts, Gen.corConsts, Gen.dorConsts, Gen.phrConsts] <;> decide
 
 /-- **read a feature after setting it** — `get_feat` after `set_feat(+)` has every bit of the mask setSub;
